@@ -65,6 +65,7 @@ type Check struct {
 	Assume   []string
 	Explain  string
 	start    time.Time
+	LoadSecs float64
 }
 
 func NewCheck(prop, tier string, p *Prog, known []KnownFinding) *Check {
@@ -223,7 +224,7 @@ func (c *Check) Finish(verifDir string) int {
 	for _, l := range knownLines {
 		fmt.Println(l)
 	}
-	wall := time.Since(c.start).Seconds()
+	wall := time.Since(c.start).Seconds() + c.LoadSecs
 	cov := map[string]interface{}{
 		"explanation":         c.Explain,
 		"rule":                "one obligation per (rule, construct) pair found in /repo's type-checked working tree; an obligation is non-trivial when its discharge needed a fact (a dominating test, a table row, a computed set); distinct = distinct (rule, construct) keys",
@@ -269,11 +270,37 @@ func (c *Check) Finish(verifDir string) int {
 		os.Remove(replay)
 		return 0
 	}
+	lastRule := ""
 	for _, v := range viols {
-		fmt.Printf("%s  %s\n  construct: %s\n  missing:   %s\n  rule:      %s\n", v.Rule, v.Pos, v.Key, v.Missing, strings.ReplaceAll(v.RuleText, "\n", " "))
+		if v.Rule != lastRule {
+			fmt.Printf("%s rule: %s\n", v.Rule, strings.ReplaceAll(v.RuleText, "\n", " "))
+			lastRule = v.Rule
+		}
+		fmt.Printf("  %s  %s\n    construct: %s\n    missing:   %s\n", v.Rule, v.Pos, v.Key, v.Missing)
 	}
 	vb, _ := json.MarshalIndent(map[string]interface{}{"property": c.Property, "tier": c.Tier, "violations": viols}, "", " ")
 	os.WriteFile(replay, append(vb, '\n'), 0o644)
 	fmt.Printf("VIOLATION property=%s replay=%s\n", c.Property, replay)
 	return 1
+}
+
+// WriteLoadFailure records that nothing could be decided because /repo does not load.
+func WriteLoadFailure(verifDir, id, tier string, seed int, loadErr error) {
+	evDir := filepath.Join(verifDir, "evidence")
+	os.MkdirAll(evDir, 0o755)
+	replay := filepath.Join(evDir, id+".violations.json")
+	vb, _ := json.MarshalIndent(map[string]interface{}{"property": id, "load_error": loadErr.Error()}, "", " ")
+	os.WriteFile(replay, append(vb, '\n'), 0o644)
+	ev := map[string]interface{}{
+		"property_id": id, "tier": tier, "seed": seed, "level": "other",
+		"coverage": map[string]interface{}{
+			"explanation": "/repo could not be loaded and type-checked, so nothing was decided: " + loadErr.Error(),
+			"obligations": 0, "discharged": 0,
+		},
+		"wall_s": 0.0, "violations": 1,
+	}
+	b, _ := json.MarshalIndent(ev, "", " ")
+	os.WriteFile(filepath.Join(evDir, id+".json"), append(b, '\n'), 0o644)
+	fmt.Printf("cannot load /repo: %v\n", loadErr)
+	fmt.Printf("VIOLATION property=%s replay=%s\n", id, replay)
 }
